@@ -72,8 +72,80 @@ pub fn check(property: &str) -> Option<CheckDef> {
                 "the sparse-bit-set specification decoder is the harness's own reading of the IFT specification text",
             ],
         }),
+        "C06" => Some(CheckDef {
+            property: "C06",
+            level: "exploration",
+            parts: vec![
+                part(Box::new(Erased(engines::histmodels::FontBuilderHistory)), 60_000, 1_500_000, "C06", 60),
+                part(Box::new(Erased(engines::ift::IftFaultFree)), 8_000, 300_000, "C02", 60),
+                part(Box::new(Erased(engines::ift::IftFaulty)), 8_000, 300_000, "C02", 60),
+            ],
+            assumptions: vec![
+                "the builder has no schedule, clock or I/O of its own: its operation histories are checked against a map model; its outputs under faults are monitored on every font the simulated IFT client emits (decoder, transport, crash and persist faults)",
+                "reading back uses read_fonts::FontRef (trusted for directory parsing)",
+            ],
+        }),
+        "C13" => Some(CheckDef {
+            property: "C13",
+            level: "exploration",
+            parts: vec![part(Box::new(Erased(engines::paintmon::PaintMonitor)), 150_000, 4_000_000, "C13", 120)],
+            assumptions: vec![
+                "paint graphs explored are those reachable by corrupting the COLR tables of the corpus colour fonts (misdirected offset slots, paints overwritten with PaintColrGlyph, bit flips, truncation); hand-built exponential DAGs are out of scope",
+                "a traversal that never ends shows up as a worker killed by the per-case wall-clock cap and is confirmed alone with a 10x cap before being reported",
+            ],
+        }),
+        "C01" => Some(CheckDef {
+            property: "C01",
+            level: "fault_enumeration",
+            parts: c01_parts(1),
+            assumptions: vec![
+                "covers the fault neighbourhoods of the ~50 well-formed corpus images (and a klippa subset of each glyf font for tears), not arbitrary byte strings; silent on table shapes absent from the corpus",
+                "walker depth and node budgets belong to the harness and are never a violation; a reader that does not terminate is caught by the per-case wall-clock cap and confirmed alone with a 10x cap",
+            ],
+        }),
+        "C02" => Some(CheckDef {
+            property: "C02",
+            level: "fault_enumeration",
+            parts: c02_parts(1),
+            assumptions: vec![
+                "explores the fault neighbourhood of well-formed images, patches and histories; a panic reachable only through a purpose-built bytecode or charstring program that no storage or transport fault produces from a real font is outside what this finds",
+                "abort, stack exhaustion and runaway loops surface as a dead or timed-out worker process attributed to the case in flight",
+            ],
+        }),
+        "C20" => Some(CheckDef {
+            property: "C20",
+            level: "fault_enumeration",
+            parts: {
+                let mut v = c01_parts(2);
+                v.extend(c02_parts(2));
+                v.push(part(Box::new(Erased(engines::paintmon::PaintMonitor)), 60_000, 1_500_000, "C13", 120));
+                v
+            },
+            assumptions: vec![
+                "same generators as C01/C02/C13/C18/C19 executed in the overflow-checked, debug-assertion build (profile strict); only overflow-class panics, and assertion failures that do not reproduce in the plain build, count for C20",
+            ],
+        }),
         _ => None,
     }
 }
 
-pub const ALL: &[&str] = &["C07", "C12", "C14", "C18", "C19"];
+/// `div` scales the budgets down (C20 runs the same generators in the slower strict build).
+fn c01_parts(div: u64) -> Vec<Part> {
+    vec![
+        part(Box::new(Erased(engines::images::ReadImages)), 60_000 / div, 3_000_000 / div, "C01", 120),
+        part(Box::new(Erased(engines::images::ReadEnum { skrifa: false })), 700 / div, 2_800 / div, "C01", 300),
+        part(Box::new(Erased(engines::images::SkewedArgs)), 20_000 / div, 500_000 / div, "C01", 120),
+    ]
+}
+
+fn c02_parts(div: u64) -> Vec<Part> {
+    vec![
+        part(Box::new(Erased(engines::images::SkrifaImages)), 12_000 / div, 600_000 / div, "C02", 120),
+        part(Box::new(Erased(engines::images::ReadEnum { skrifa: true })), 700 / div, 2_800 / div, "C02", 600),
+        part(Box::new(Erased(engines::drawhist::DrawHistory { stale: true })), 60_000 / div, 2_000_000 / div, "C02", 60),
+        part(Box::new(Erased(engines::ift::IftFaultFree)), 10_000 / div, 400_000 / div, "C02", 60),
+        part(Box::new(Erased(engines::ift::IftFaulty)), 20_000 / div, 800_000 / div, "C02", 60),
+    ]
+}
+
+pub const ALL: &[&str] = &["C01", "C02", "C06", "C07", "C12", "C13", "C14", "C18", "C19", "C20"];
